@@ -846,8 +846,8 @@ COUNTEREXAMPLE_OPS = [
     'S cxs 3 ' + x(b'cxsolv'),
     'F ' + x(b'self.opt') + ' ' + x(b'wantsol=1\noptionfile=self.opt\n'),
     'C cx4 cxs 1 0 0 %s x %s=%s N' % (x(b'cxsolv'), x(b'cxsolv_options'), x(b'optionfile=self.opt')),
-    # C11_counterexample_literal_synonym: the literal text of a wildcard option's synonym pattern is accepted as a key
-    # and the value lands on the entry addressed before (obj:2:priority=5 obj_*_priority=3 -> entry 2 becomes 3, no error)
+    # regression (fixed in ampl/mp 084cb26): the literal text of a wildcard option's synonym pattern used to be accepted as a key,
+    # the value landing on the entry addressed before (obj:2:priority=5 obj_*_priority=3 -> entry 2 became 3, no error)
     'T cxw',
     'O cxw int any ' + x(b'obj:*:priority') + ',' + x(b'obj_*_priority'),
     'C cx5 cxw 1 0 0 %s x %s=%s N' % (x(SOLVER), x(SOLVER + b'_options'), x(b'obj:2:priority=5 obj_*_priority=3')),
@@ -949,7 +949,7 @@ def generate(ck):
 def run(ck):
     if os.environ.get('VERIF_COVERAGE'):
         return coverage_run(ck)
-    N_THEOREMS = 73
+    N_THEOREMS = 74
     # 1. regenerate the source-derived definitions (byte conditions, int conversion, statement skeletons, value kinds)
     gen = os.path.join(LEAN, 'MpVerif', 'Gen', 'C11Tok.lean')
     rc, out, err = sh([sys.executable, os.path.join(VERIF, 'translators', 'gen_c11.py'), REPO, gen, os.path.join(BUILD, 'tr')], timeout=600)
@@ -1015,9 +1015,12 @@ def run(ck):
             overreads.append((op, m))
         elif oc.startswith('crash') or 'raw' in pi:
             crashes.append((op, il[k], m))
-        if cid == 'cx5' and pi.get('outcome') == 'ok' and not (pi.get('vals') == ['w(32:i5)'] and pi.get('errs')):
+        if cid == 'cx5' and not oc.startswith('crash') and not (pi.get('outcome') == 'ok' and pi.get('vals') == ['w(32:i5)'] and
+                                                                 pi.get('errs', [])[:1] == ['u' + b'obj_*_priority'.hex()] and pi.get('ret') == '0'):
+            # regression (fixed in ampl/mp 084cb26): the literal synonym pattern must be diagnosed as an unknown option
+            # and entry 2 must keep the value 5
             oracle_bad.setdefault('wildcard-literal-synonym:sets-previous-entry', []).append(
-                (op, 'the key obj_*_priority (literal text of a synonym pattern; the primary pattern typed literally is "unknown") is accepted and its value is stored on the entry addressed before: values %s, errors %s' % (pi.get('vals'), pi.get('errs')), 'cxw'))
+                (op, 'the key obj_*_priority (literal text of a synonym pattern) must be reported as unknown and must not touch entry 2 (=5): got values %s, errors %s' % (pi.get('vals'), pi.get('errs')), 'cxw'))
         if cid == 'cx4' and not (pi.get('outcome') == 'error' and any(e.startswith('n') for e in pi.get('errs', []))) and not oc.startswith('crash'):
             oracle_bad.setdefault('optionfile:self-inclusion:not-reported', []).append((op, 'a self-including option file must end with the nesting error, got %s' % il[k][:200], 'cxs'))
         if m[0] == 'wf':
